@@ -199,6 +199,30 @@ def check_two_tree(ctx):
     ctx.expect(paths, ret=2)
 
 
+def check_void_invoke(ctx):
+    install_exc(ctx.eng)
+    ctx.eng.max_strlen = 64
+    w = ctx.sym("with_cb", 32)
+    x = ctx.sym("x", 32)
+    ctx.assume(z3.ULE(w, 1))
+    paths = ctx.run("k_void_invoke", [w, x])
+    for q in paths:
+        if q.status != "ret":
+            ctx.fail(q, "ended %s %s" % (q.status, q.info))
+            continue
+        r, m = ctx.eng.check_sat(q.pc)
+        wc = mval(m, w)
+        lg = q.user.get("log") or []
+        A = conc([e for e in lg if e[0] == 24][0][1])
+        seq = [("in" if e[0] == 50 else "out", conc(e[1]), conc(e[3])) for e in lg if e[0] in (50, 51)]
+        want = [("in", INVOKE, A), ("out", CALLBACK, A), ("in", CALLBACK, A), ("out", INVOKE, A)] if wc else [("in", INVOKE, A), ("out", INVOKE, A)]
+        n = [e for e in lg if e[0] == 61]
+        ctx.require(q, z3.BoolVal(seq == want and bool(n) and conc(n[0][1]) == (2 if wc else 1)),
+                    "a void sandbox function is bracketed by exactly one 'in' and one 'out' (got %s)" % (seq,))
+    ctx.only(paths, "ret")
+    ctx.expect(paths, ret=2)
+
+
 def check_state_change(ctx):
     install_exc(ctx.eng)
     ctx.eng.max_strlen = 64
@@ -227,7 +251,8 @@ def check_state_change(ctx):
 def jobs(tier, seed):
     from specs.C13 import NOOP, DYLIB
     two = [Job("C19_noop_two", NOOP + '#include "C19_two.inc"\n', [dict(name="noop two sandboxes, nested visit may abort", fn=check_two_tree, unwind=400),
-                                                                     dict(name="noop transition state replaced during an invocation", fn=check_state_change, unwind=400)], native=False,
+                                                                     dict(name="noop transition state replaced during an invocation", fn=check_state_change, unwind=400),
+                                                                     dict(name="noop void sandbox functions", fn=check_void_invoke, unwind=400)], native=False,
                flags=["-D_GLIBCXX_EXTERN_TEMPLATE=0"]),
            Job("C19_dylib_two", DYLIB + '#include "C19_two.inc"\n', [dict(name="dylib two sandboxes, nested visit may abort", fn=check_two_tree, unwind=400)], native=False,
                flags=["-D_GLIBCXX_EXTERN_TEMPLATE=0"])]
